@@ -1,6 +1,7 @@
 (* C20/Driver.v — entry point for the correspondence run: the model's prediction of what an
    observer of the process sees (exit status, content of every sink, diagnostics). *)
-From RM Require Import C20.Model C20.Sinks C20.Wiring.
+From RM Require Import C20.Model C20.Sinks C20.Wiring C20.ClapSpec C20.Clap.
+From RM Require Gen.C20Cli Gen.C20Wiring.
 Open Scope Z_scope.
 
 (* path identifiers used by the case format *)
@@ -122,3 +123,41 @@ Definition sym_case (codes : list Z) : list Z * list Z * Z :=
   let argv := map item_of_code codes in
   let s := supplier_of (parse_sym argv None None 1000) in
   (supplier_paths s, supplier_urls s, match locate root_has (supplier_paths s) with Some k => k | None => 0 end).
+
+Local Open Scope str_scope.
+(* ---- raw command lines.  The case gives the argument vector itself (the sink paths as the placeholders @O @C @L);
+   the model of clap's parser over the REGENERATED grammar (Gen/C20Cli.v) decides between usage error / help /
+   version / the flag record, and main()'s model goes on from there.  A usage error: status 2, nothing opened,
+   nothing written, a message on standard error; help / version: status 0, text on standard output, nothing opened. *)
+Definition argv_pid (s : str) : path :=
+  if str_eqb s "@O" then P_OUT else if str_eqb s "@C" then P_CYBORG else if str_eqb s "@L" then P_LOG else 9.
+Definition main_events (tr : list cli_event) : list event :=
+  flat_map (fun ev => match ev with MainEv x => [x] | _ => [] end) tr.
+Definition to_stdout (tr : list cli_event) : bool :=
+  existsb (fun ev => match ev with ClapMessage true => true | _ => false end) tr.
+Definition observe_cli (o : cli_outcome) (e : env) (pre : path -> bool) : observation :=
+  let generic :=
+    let '(tr, code) := run_outcome o e in
+    let mtr := main_events tr in
+    {| o_exit := code;
+       o_stdout := if to_stdout tr then [7] else sink_content e mtr Stdout;
+       o_out := file_state e pre mtr P_OUT;
+       o_cyborg := file_state e pre mtr P_CYBORG;
+       o_log := match file_state e pre mtr P_LOG with [-1] => [-1] | _ => [] end;
+       o_stderr_diag := negb (to_stdout tr);
+       o_log_diag := false;
+       o_recover := false |} in
+  match o with
+  | CliFlags f => observe f e pre
+  | CliPanicFeatures f => match decide f with Plan _ => generic | _ => observe f e pre end
+  | _ => generic
+  end.
+Definition argv_case (argv : list str) (c_out c_cyborg c_log c_stdout : Z) (pre_out pre_cyborg pre_log : bool)
+  : observation * observation * observation :=
+  let o := interpret argv_pid RM.Gen.C20Cli.CLI_DEFAULTS RM.Gen.C20Cli.CLI_FEATURE_ARMS
+                     (parse RM.Gen.C20Cli.CLI_ARGS RM.Gen.C20Cli.CLI_GROUP argv) in
+  let cls := fun p => if p =? P_OUT then c_out else if p =? P_CYBORG then c_cyborg else if p =? P_LOG then c_log else 0 in
+  let pre := fun p => if p =? P_OUT then pre_out else if p =? P_CYBORG then pre_cyborg else if p =? P_LOG then pre_log else false in
+  (observe_cli o (mk_env cls c_stdout false false) pre,
+   observe_cli o (mk_env cls c_stdout true false) pre,
+   observe_cli o (mk_env cls c_stdout true true) pre).
